@@ -245,6 +245,10 @@ def run_unit(unit_path, repo="/repo", tier="quick", seed=0, keep=False, extra_ar
                 res["undecided"].append(f"resource limit: {msg} at {where}")
                 continue
             kind = classify(msg)
+            if kind == "other" or d.get("code"):
+                # not a verification verdict (syntax / type / mode error, unsupported construct): undecided
+                res["undecided"].append("verus rejected the unit: " + (d.get("rendered") or msg)[:1500])
+                continue
             prim = None
             clause = None
             clause_tag = None
@@ -264,6 +268,12 @@ def run_unit(unit_path, repo="/repo", tier="quick", seed=0, keep=False, extra_ar
                 # error located outside the unit file (e.g. in vstd) - treat as undecided
                 res["undecided"].append(f"diagnostic without location in unit: {msg}")
                 continue
+            exit_sp = None
+            for sp in d["spans"]:
+                if sp["file_name"].endswith(res["unit"] + ".rs") and sp.get("label") and \
+                        ("at this exit" in sp["label"] or "at the end of the function body" in sp["label"]
+                         or "at this loop exit" in sp["label"]):
+                    exit_sp = sp
             gl = prim["line_start"]
             if "vx__canary" in (prim["text"][0]["text"] if prim["text"] else "") or _in_canary(text, gl):
                 canary_failed = True
@@ -274,7 +284,18 @@ def run_unit(unit_path, repo="/repo", tier="quick", seed=0, keep=False, extra_ar
                     fn = f
             org = gen.linemap.get(gl, ("raw", "?"))
             src_text = prim["text"][0]["text"] if prim["text"] else ""
-            if org[0] == "src":
+            if exit_sp is not None and clause is not None:
+                eorg = gen.linemap.get(exit_sp["line_start"], ("raw", "?"))
+                etext = exit_sp["text"][0]["text"] if exit_sp["text"] else ""
+                if exit_sp["line_end"] - exit_sp["line_start"] > 2:
+                    etext = "end-of-body"
+                if eorg[0] == "src":
+                    where = f"{eorg[1]}:{eorg[2]}"
+                    src_text = etext
+                else:
+                    where = f"contract {org[1]}/{org[2]}" if org[0] == "ins" else str(org[1])
+                anchor = line_hash(etext)
+            elif org[0] == "src":
                 where = f"{org[1]}:{org[2]}"
                 anchor = line_hash(src_text)
             elif org[0] == "ins":
